@@ -102,6 +102,11 @@ CHECKS = {
         text="Explicit-state search over call histories: one shared world (one engine, templates parsed once, binding environments built once and shared by reference, exactly as a caller would) and the operations R(t,b) = t.Render(b). All histories of length <=2 over 14 templates x 3 environments (quick) / <=3 over 24 x 4 (thorough, 885 k histories), each replayed on a fresh world, plus 40-step round-robin histories. After every step three invariants are checked: a deep snapshot of every environment (slices up to capacity with sentinels in the spare capacity, aliased sub-slices, unexported fields, pointer identity) is unchanged; the result equals the solo result on a fresh engine, parse and bindings; the parsed render trees and the engine configuration are structurally unchanged. The number of distinct world states reached is reported (exactly one on a correct tree).",
         note="Successor = replay of the history on a fresh world + one operation (live objects cannot be cloned). Closure-captured state is visible only through the solo-equality invariant.",
         tech="explicit-state search over operation histories on the real objects with deep-snapshot invariants and a differential solo oracle"),
+    "C04": dict(
+        cat="model_checking", ref="4/C04",
+        text="Two complementary exhaustive explorations of the same harness bodies. (a) A hand-written cooperative scheduler runs 2-3 goroutines that parse and render on one engine, one set of parsed templates and one shared bindings map (slices, maps, Drops), switching only at scheduling points the harness owns and plants densely (an identity filter on every object, a no-op tag after every tag and object, a block, Drop.ToLiquid, every Write of the FRender writer, operation starts); every schedule with <=2 (quick) / <=3 (thorough) preemptions is executed to completion on a fresh world (deviation-bounded DFS, replay divergence is a hard error), and every operation must return its solo result with the shared bindings unchanged. (b) Because a cooperative scheduler's hand-offs are happens-before edges that blind the race detector, the same kind of bodies run free in a separate -race build: one program per standard tag, filter and operator form, rendered by 2/8/32 goroutines at GOMAXPROCS 1/4/16 on one parsed template and concurrently with a parse of its own source; any race report or result differing from sequential is a violation.",
+        note="Granularity of (a) is 'between any two template nodes and around every expression evaluation'; finer interleavings are delegated to (b), which is complete per program only because renders contain no synchronisation (two conflicting accesses are unordered in every schedule). The statement's static check is another technique family and is not built.",
+        tech="stateless model checking: preemption-bounded DFS over schedules of the real code under a controlled scheduler, plus a free-running race-detector pass over an enumerated program alphabet"),
 }
 
 NOT_YET = "check not built yet (work in progress; see DESIGN.md section 7 build order)"
